@@ -172,9 +172,9 @@ def mk_ma(lit):
 
 
 def mk_utxo(u):
-    return UTxO(TransactionInput(TransactionId(bytes.fromhex(u['id'])), u['ix']),
-                TransactionOutput(mk_addr(u['addr']), Value(u['coin'], mk_ma(u.get('ma'))),
-                                  script=mk_script(u.get('script')), post_alonzo=bool(u.get('script'))))
+    return wire(UTxO(TransactionInput(TransactionId(bytes.fromhex(u['id'])), u['ix']),
+                     TransactionOutput(mk_addr(u['addr']), Value(u['coin'], mk_ma(u.get('ma'))),
+                                       script=mk_script(u.get('script')), post_alonzo=bool(u.get('script')))))
 
 
 def script_len(s):
